@@ -135,7 +135,15 @@ func (ls *Leadership) Check() bool {
 // the transaction can be executed only if the server is leader.
 func (ls *Leadership) LeaderTxn(cs ...clientv3.Cmp) clientv3.Txn {
 	txn := kv.NewSlowLogTxn(ls.client)
-	return txn.If(append(cs, ls.leaderCmp())...)
+	cs = append(cs, ls.leaderCmp())
+	// The leader key must still be attached to the lease of the campaign this
+	// transaction is issued in. Comparing the value alone is not enough: a
+	// transaction issued in an earlier term of this member may reach etcd only
+	// after the member has lost the leadership and won it again.
+	if l := ls.getLease(); l != nil {
+		cs = append(cs, clientv3.Compare(clientv3.LeaseValue(ls.leaderKey), "=", l.ID))
+	}
+	return txn.If(cs...)
 }
 
 func (ls *Leadership) leaderCmp() clientv3.Cmp {
